@@ -2,6 +2,7 @@ import PartituraModel.Wire
 import PartituraModel.Model.TimeMap
 import PartituraModel.Model.TimeMapHist
 import PartituraModel.Model.TimeMapCalls
+import PartituraModel.Model.TimeMapScipy
 
 open Wire Model.TimeMap
 
@@ -96,20 +97,86 @@ def fmtState (p : Part) : String :=
     fmtList (fun s => fmtTuple [fmtInt s.t, fmtNat s.beats, fmtNat s.beatType, fmtNat s.mb]) p.ts,
     fmtOpt (fun m => fmtTuple [fmtInt m.1, fmtInt m.2]) p.m1]
 
+/-- `- | <rat>` -/
+def parseOptRat : P (Option Rat) := opt rat
+
+/-- an element of an argument array: `nan`, `inf`, `-inf` or a rational -/
+def parseArg : P Arg := fun ts => match ts with
+  | "nan" :: r => some (Arg.nan, r)
+  | "inf" :: r => some (Arg.posInf, r)
+  | "-inf" :: r => some (Arg.negInf, r)
+  | _ => match rat ts with
+    | some (x, r) => some (Arg.num x, r)
+    | none => none
+
+/-- a map on NaN / infinite / finite arguments -/
+def answerA (f : Part → Arg → Option Rat) (modeOf : Part → Mode) (rest : List String) : String :=
+  match run (do let p ← parsePart; let xs ← list parseArg; pure (p, xs)) rest with
+  | none => "bad-request"
+  | some (p, xs) => if raises p (modeOf p) then "err" else fmtList fmtVal (xs.map (f p))
+
+/-- the four public maps on top of the interpolation stack as it is written (`Model/TimeMapScipy.lean`) -/
+def beatMapS (p : Part) := fwdS p (beatMode p)
+def invBeatMapS (p : Part) := invS p (beatMode p)
+def quarterMapS (p : Part) := fwdS p .quarter
+def invQuarterMapS (p : Part) := invS p .quarter
+
 def handle (ts : List String) : String :=
   match ts with
-  | "bm" :: rest => answer beatMap beatMode rest
-  | "ibm" :: rest => answer invBeatMap beatMode rest
-  | "qm" :: rest => answer quarterMap (fun _ => Mode.quarter) rest
-  | "iqm" :: rest => answer invQuarterMap (fun _ => Mode.quarter) rest
+  -- the maps through the wrapper / scipy / numpy models ...
+  | "bm" :: rest => answer beatMapS beatMode rest
+  | "ibm" :: rest => answer invBeatMapS beatMode rest
+  | "qm" :: rest => answer quarterMapS (fun _ => Mode.quarter) rest
+  | "iqm" :: rest => answer invQuarterMapS (fun _ => Mode.quarter) rest
+  -- ... and through the recursive `interp` the theorems are stated about (C02.fwdS_eq_fwd / invS_eq_inv)
   | "nbm" :: rest => answerN beatMap beatMode rest
   | "nibm" :: rest => answerN invBeatMap beatMode rest
   | "nqm" :: rest => answerN quarterMap (fun _ => Mode.quarter) rest
   | "niqm" :: rest => answerN invQuarterMap (fun _ => Mode.quarter) rest
+  | "rt" :: which :: rest =>
+    -- inv(fwd(x)) as the code computes it, at key points (the ends of the image included) and between
+    match run (do let p ← parsePart; let xs ← list rat; pure (p, xs)) rest with
+    | none => "bad-request"
+    | some (p, xs) =>
+      let m := if which = "qm" then Mode.quarter else beatMode p
+      if raises p m then "err" else fmtList fmtVal (xs.map (roundTripS p m))
+  | "lin" :: rest =>
+    -- partitura.utils.generic.interp1d called directly:
+    -- `<np 0|1> <kind l|p> <fill below: -|rat> <fill above: -|rat> <n> (x y)* <m> x_new*`
+    match run (do
+        let np ← nat; let k ← tok; let fb ← parseOptRat; let fa ← parseOptRat
+        let ks ← list (do let x ← rat; let y ← rat; pure (x, y)); let xs ← list parseArg
+        pure (np, k, fb, fa, ks, xs)) rest with
+    | none => "bad-request"
+    | some (np, k, fb, fa, ks, xs) =>
+      let o : Opts := { kind := if k = "p" then .previous else .linear, fillBelow := fb, fillAbove := fa, npPath := np != 0 }
+      fmtList fmtVal (xs.map (genericInterp1dArg o ks))
+  | "abm" :: rest => answerA (fun p => fwdSArg p (beatMode p)) beatMode rest
+  | "aibm" :: rest => answerA (fun p => invSArg p (beatMode p)) beatMode rest
+  | "aqm" :: rest => answerA (fun p => fwdSArg p .quarter) (fun _ => Mode.quarter) rest
+  | "aiqm" :: rest => answerA (fun p => invSArg p .quarter) (fun _ => Mode.quarter) rest
+  | "aqdm" :: rest =>
+    match run (do let p ← parsePart; let xs ← list parseArg; pure (p, xs)) rest with
+    | none => "bad-request"
+    | some (p, xs) => fmtList fmtVal (xs.map (qdMapSArg p.qd))
+  | "knots" :: which :: rest =>
+    -- the knot arrays (x, y) the interpolator is built from
+    match run parsePart rest with
+    | none => "bad-request"
+    | some p =>
+      let m := if which = "qm" then Mode.quarter else beatMode p
+      if raises p m then "err"
+      else if p.npoints < 2 then "none"
+      else fmtList (fun k => fmtTuple [fmtRat k.1, fmtRat k.2]) (finalKnotsS p m)
+  | "qds" :: rest =>
+    -- Part.quarter_durations(start, end)
+    match run (do let p ← parsePart; let a ← parseOptRat; let b ← parseOptRat; pure (p, a, b)) rest with
+    | none => "bad-request"
+    | some (p, a, b) => fmtList (fun e => fmtTuple [fmtInt e.1, fmtNat e.2]) (qdRange p.qd a b)
   | "qdm" :: rest =>
     match run (do let p ← parsePart; let xs ← list rat; pure (p, xs)) rest with
     | none => "bad-request"
-    | some (p, xs) => fmtList fmtQ (xs.map (qdMap p.qd))
+    | some (p, xs) => fmtList fmtVal (xs.map (qdMapS p.qd))
   | "nqdm" :: rest =>
     match run (do let p ← parsePart; let a ← parseNested 4; pure (p, a)) rest with
     | none => "bad-request"
